@@ -11,7 +11,7 @@ use serde_json::{json, Value};
 use super::common::*;
 use crate::asm;
 use crate::fakebtc;
-use crate::hist::{self, Driver, Op, World};
+use crate::hist::{self, Ctx, Driver, Enc, Op, Target, World};
 use crate::obs::{self, ObsMode};
 use crate::pre;
 use crate::report::{Spec, WorkerReport};
@@ -23,7 +23,7 @@ pub fn spec() -> Spec {
     Spec {
         prop: "C10",
         level: "exploration",
-        rule: "Twin with/without reads: instance A gets a generated history with read bursts at every block boundary (eth_call, eth_callMany with 2-5 calls and state carry-over, eth_estimateGas(Many), brc20_balance, all eth_get*/debug_*/txpool_*/brc20_get*; simulated code does SSTORE, CREATE/CREATE2, LOG, SELFDESTRUCT, REVERT, INVALID, out-of-gas, precompile calls with Bitcoin-transaction overrides, and the multi-call error path) and non-executing reads mid-block; instance B gets the same history without them. Compared: every indexer response, Obs immediately before/after each burst, Obs of A vs B at the end, and after the final commit and close every RocksDB table (db and *_cache, plus global) of both directories key by key (block rows with mineTimestamp zeroed). The failpoint observer must see no persistent write during a read. Simulations carry every kind of block parameter (tags, existing heights, heights up to 300 beyond the tip) and half of those run code reading BLOCKHASH / NUMBER around the simulated height. Non-trivial = read whose simulated execution succeeded on a state-changing code path; distinct by (method, simulated op).",
+        rule: "Twin with/without reads: instance A gets a generated history with read bursts at every block boundary (eth_call, eth_callMany with 2-5 calls and state carry-over, eth_estimateGas(Many), brc20_balance, all eth_get*/debug_*/txpool_*/brc20_get*; simulated code does SSTORE, CREATE/CREATE2, LOG, SELFDESTRUCT, REVERT, INVALID, out-of-gas, precompile calls with Bitcoin-transaction overrides, and the multi-call error path) and non-executing reads mid-block; instance B gets the same history without them. Compared: every indexer response, Obs immediately before/after each burst, Obs of A vs B at the end, and after the final commit and close every RocksDB table (db and *_cache, plus global) of both directories key by key (block rows with mineTimestamp zeroed). The failpoint observer must see no persistent write during a read. Simulations carry every kind of block parameter (tags, existing heights, heights up to 300 beyond the tip) and half of those run code reading BLOCKHASH / NUMBER around the simulated height. At the end the indexer calls are also replayed in a fresh child process and compared (state leaking through process-wide memory is invisible to a twin in the same process). Non-trivial = read whose simulated execution succeeded on a state-changing code path; distinct by (method, simulated op).",
         assumptions: vec!["RocksDB write order differs between twins (HashMap walks) and is irrelevant: contents are compared, not files".into()],
         exhaustive: false,
         min_nontrivial: 2,
@@ -160,11 +160,23 @@ fn read_burst(rng: &mut Rng, d: &mut Driver, w: &mut World, rep: &mut WorkerRepo
                     call_obj(Some(&pk_addr), None, &asm::tool_init()),
                 ];
                 let n = rng.range(2, 5) as usize;
-                let overrides = if rng.chance(1, 2) {
-                    json!({"opReturnTxIds": [hist::ZERO_HASH.replace("00", "ab")], "bitcoinTxHexes": {format!("0x{}", chain.txs[3].txid_hex): hist::hx(&chain.txs[3].raw)}})
-                } else {
-                    Value::Null
+                let overrides = match rng.below(4) {
+                    0 | 1 => json!({"opReturnTxIds": [hist::ZERO_HASH.replace("00", "ab")], "bitcoinTxHexes": {format!("0x{}", chain.txs[3].txid_hex): hist::hx(&chain.txs[3].raw)}}),
+                    2 => {
+                        // a doctored parent: the override for txs[1] (parent of txs[2]'s inputs) pays other amounts
+                        let mut p = chain.txs[1].tx.clone();
+                        for o in p.output.iter_mut() {
+                            o.value = bitcoin::Amount::from_sat(o.value.to_sat() + 1 + rng.below(1000));
+                        }
+                        json!({"opReturnTxIds": [], "bitcoinTxHexes": {format!("0x{}", chain.txs[1].txid_hex): hist::hx(&bitcoin::consensus::encode::serialize(&p)), format!("0x{}", chain.txs[2].txid_hex): hist::hx(&chain.txs[2].raw)}})
+                    }
+                    _ => Value::Null,
                 };
+                let mut calls = calls;
+                if overrides.get("opReturnTxIds").map(|x| x.as_array().map(|a| a.is_empty()).unwrap_or(false)).unwrap_or(false) {
+                    // ... and a call that looks that parent up
+                    calls.insert(0, call_obj(Some(&pk_addr), Some(&tool), &asm::tool_call(asm::OP_CALL, &[asm::word_u64(pre::PC_TXDETAILS)], &pre::get_tx_details(&chain.txs[2].txid_b32))));
+                }
                 let r = d.inst.call("eth_callMany", json!([calls[..n].to_vec(), block_param.clone().unwrap_or(Value::Null), overrides]));
                 rep.evaluations += 1;
                 rep.count("read:eth_callMany", 1);
@@ -306,6 +318,16 @@ fn one_case(ctx: &WorkerCtx, rep: &mut WorkerReport, case_seed: u64, blocks: u64
                 return;
             }
         }
+        // an executed transaction right after the reads that needs what the reads may have touched
+        // (the parents of a Bitcoin transaction's inputs, looked up from the node)
+        if a.ntx == 0 && !w.tools.is_empty() && rng.chance(1, 2) {
+            let chain = fakebtc::chain();
+            let blk = w.block_ctx(&a);
+            let data = asm::tool_call(asm::OP_CALL, &[asm::word_u64(pre::PC_TXDETAILS)], &pre::get_tx_details(&chain.txs[2].txid_b32));
+            a.exec(Op::Call { pk: w.pks[0].clone(), target: Target::Addr(w.tools[0].clone()), data: Some(hist::hx(&data)), enc: Enc::Hex, ctx: Ctx { ts: blk.0, hash: blk.1.clone(), idx: 0 }, iid: w.iid(), len: 1_000_000, txid: w.txid() });
+            let n = a.ntx;
+            a.exec(Op::Finalise { ts: blk.0, hash: blk.1, count: n });
+        }
         let wr = WRITES_DURING_READ.swap(0, Ordering::SeqCst);
         if wr > 0 {
             let l = wlog.lock().map(|g| g.clone()).unwrap_or_default();
@@ -334,6 +356,38 @@ fn one_case(ctx: &WorkerCtx, rep: &mut WorkerReport, case_seed: u64, blocks: u64
         drop_driver(a);
         drop_driver(bdrv);
         return;
+    }
+    // a twin in another process: state that leaks through process-wide memory (a memo filled while
+    // serving a read) is shared by the two instances above, but not by this one
+    {
+        let ops: Vec<Op> = a.log.iter().map(|(o, _)| o.clone()).collect();
+        match super::c02::replay_in_child(ctx, &ops, &u, net) {
+            Some(child) => {
+                rep.evaluations += 1;
+                for (i, ((op, ra), rc)) in a.log.iter().zip(child.transcript.iter()).enumerate() {
+                    if crate::report::canon_string(&obs::canon_resp(ra)) != crate::report::canon_string(rc) {
+                        violation(rep, "C10", ctx.seed, &format!("indexer-response-differs-from-other-process:{}", op.kind()), "an indexer call is answered differently by the instance that served reads than by a fresh process that replays only the indexer calls".into(),
+                            json!({"case_seed": case_seed, "network": net, "op_index": i, "op": op, "with_reads": ra.short(), "other_process": rc}));
+                        drop_driver(a);
+                        drop_driver(bdrv);
+                        return;
+                    }
+                }
+                if let Some(last) = child.obs.last() {
+                    let diffs: Vec<&String> = oa.entries.iter().filter(|(k, v)| last.get(*k).map(|x| crate::report::canon_string(x) != crate::report::canon_string(v)).unwrap_or(false)).map(|(k, _)| k).collect();
+                    if !diffs.is_empty() {
+                        let methods: std::collections::BTreeSet<&str> = diffs.iter().map(|k| k.split(' ').next().unwrap_or("")).collect();
+                        violation(rep, "C10", ctx.seed, &format!("other-process-obs-differs:{}", methods.iter().cloned().collect::<Vec<_>>().join("+")), format!("the instance that served reads answers {} queries differently from a fresh process fed only the indexer calls", diffs.len()),
+                            json!({"case_seed": case_seed, "network": net, "some_queries": diffs.iter().take(6).collect::<Vec<_>>()}));
+                        drop_driver(a);
+                        drop_driver(bdrv);
+                        return;
+                    }
+                    rep.nontrivial("other-process-twin".to_string());
+                }
+            }
+            None => rep.inconclusive("the twin process produced no result"),
+        }
     }
     // final commit, close, compare the database contents
     if a.ntx == 0 {
